@@ -62,7 +62,15 @@ def decide(ctx, trace):
         f = facts[i - 1]
         bad.add(i)
         ctx.violation("C15:%s.%s:Hidden" % (f["section"], f["setting"]),
-                      "the display form of the configuration (%s) shows the value of the secret %s.%s" % (f["scope"], f["section"], f["setting"]), f)
+                      "the display form of the configuration (%s%s) shows the value of the secret %s.%s" % (
+                          f["scope"], "" if f.get("registered", True) else ", section not registered", f["section"], f["setting"]), f)
+    for i in v["badsubset"]:
+        f = facts[i - 1]
+        bad.add(i)
+        ctx.violation("C15:manager-subset:%s:%s" % (f["section"], "load" if f["outcome"] != "accepted" else "lost"),
+                      "a Manager registering only {%s}: %s" % (f["family"],
+                          ("does not load a full configuration file (%s %s)" % (f["outcome"], f.get("detail", ""))) if f["outcome"] != "accepted"
+                          else "its ToJSON loses or alters the unregistered section %s" % f["section"]), f)
     ctx.traces_validated += len(facts) - len(bad)
     ctx.extra["facts_decided_by_tlc"] = len(facts)
     ctx.extra["secret_settings_checked"] = sorted({"%s.%s" % (facts[i - 1]["section"], facts[i - 1]["setting"]) for i in v["secrets"]})
@@ -78,7 +86,9 @@ def run(ctx):
     ctx.rule = ("a case = (section, setting, value class, scope alone|manager|env|pair) with settings extracted from the real code and "
                 "classes from Config.tla (pair = every kept (setting, class) again next to each value of another setting that the "
                 "loader accepts without keeping it); plus one case per (section, struct field, out-of-range class) and per (section, setting) "
-                "secret injection; non-trivial = the class is not 'absent'; distinct by (section, setting, class, scope). "
+                "secret injection; plus full files with a marker in every marker-taking setting of every section loaded by Managers "
+                "registering the component families the binaries use, small families and seeded random subsets (Hidden on the display "
+                "form for every section, registered or not; unregistered sections preserved by ToJSON); non-trivial = the class is not 'absent'; distinct by (section, setting, class, scope). "
                 "Value fidelity is checked per value CLASS with one seeded representative, not for all values")
     ctx.assumptions = [
         "which classes are well-formed for a setting is inferred from the shape of its default value (duration, multiaddr, number, "
